@@ -129,7 +129,7 @@ def run_batches(ctx, progs, nproc=16):
     per = max(1, (len(progs) + nproc - 1) // nproc)
     todo = [progs[i:i + per] for i in range(0, len(progs), per)]
     while todo:
-        outs = ctx.run_drivers(DRIVER, [dict(programs=b) for b in todo], nproc=nproc, timeout=1200)
+        outs = ctx.run_drivers(DRIVER, [dict(programs=b) for b in todo], nproc=nproc, timeout=3600)
         nxt = []
         for b, o in zip(todo, outs):
             traces += o['traces']
@@ -167,9 +167,10 @@ def run(ctx):
     for i in range(ndfs):
         pid = (pid // 1000 + 1) * 1000
         p = gen_program(rnd, pid, small=True)
-        p['strategy'] = dict(kind='dfs', max=600 if thorough else 120, depth=14, lates=[0, 1, 3 * U])
+        p['strategy'] = dict(kind='dfs', max=400 if thorough else 120, depth=14, lates=[0, 1, 3 * U])
         progs.append(p)
     progmap = {p['id']: p for p in progs}
+    rnd.shuffle(progs)          # spread the expensive DFS programs over the driver processes
     traces = run_batches(ctx, progs)
     ctx.cov['evaluations'] += len(traces)
     skipped = [t for t in traces if t.get('nondyadic')]
